@@ -180,6 +180,68 @@ def landscape_case(ctx: Ctx, stream: str, i: int) -> None:
         ctx.case(f'{name}:{kind}:{nside}', True, sample={'landscape': name, 'stokes': kind, 'nside': nside})
 
 
+_CAR = None
+
+
+def car_class():
+    """a user-defined landscape, as the library intends them: a registered subclass of the abstract StokesLandscape
+    inheriting its pytree protocol (the repository's own tests define the same toy class)"""
+    global _CAR
+    if _CAR is None:
+        from furax.landscapes import StokesLandscape
+
+        @jax.tree_util.register_pytree_node_class
+        class CARStokesLandscape(StokesLandscape):
+            def world2pixel(self, theta, phi):
+                return theta, phi
+        _CAR = CARStokesLandscape
+    return _CAR
+
+
+def custom_landscape_case(ctx: Ctx, stream: str, i: int) -> None:
+    rng = ctx.rng(stream, i)
+    cls = car_class()
+    shape = rng.choice([(5, 2), (2, 5), (3, 3), (4,), (2, 3, 4), (6, 1)])
+    kind = rng.choice(['I', 'QU', 'IQU', 'IQUV'])
+    dt = rng.choice([np.float32, np.float64 if jax.config.jax_enable_x64 else np.float16])
+    by_pixel_shape = rng.random() < 0.4
+    land = cls(pixel_shape=shape[::-1], stokes=kind, dtype=dt) if by_pixel_shape else cls(shape, kind, dt)
+    cfg = {'shape': shape, 'stokes': kind, 'dtype': str(np.dtype(dt)), 'built_from_pixel_shape': by_pixel_shape}
+    coords = [jnp.asarray([float(rng.randint(0, d - 1)) for _ in range(6)]) for d in shape[::-1]]
+    want_idx = np.asarray(land.pixel2index(*coords))
+
+    def same(l2, how):
+        ok = type(l2) is type(land) and tuple(l2.shape) == tuple(land.shape) and \
+            tuple(l2.pixel_shape) == tuple(land.pixel_shape) and l2.stokes == land.stokes and \
+            np.dtype(l2.dtype) == np.dtype(land.dtype) and gen.same_structure(l2.structure, land.structure)
+        if not ok:
+            ctx.fail(stream, i, f'landscape-roundtrip:custom:{how}', f'{how}: shape {getattr(l2, "shape", None)} / pixel_shape '
+                     f'{getattr(l2, "pixel_shape", None)} / stokes / dtype / structure differ from the original '
+                     f'{land.shape}', cfg)
+            return
+        if not np.array_equal(np.asarray(l2.pixel2index(*coords)), want_idx):
+            ctx.fail(stream, i, f'landscape-action:custom:{how}', f'{how}: pixel2index differs', cfg)
+        if jax.tree.structure(l2.zeros()) != jax.tree.structure(land.zeros()) or \
+                [l.shape for l in jax.tree.leaves(l2.ones())] != [l.shape for l in jax.tree.leaves(land.ones())]:
+            ctx.fail(stream, i, f'landscape-zeros:custom:{how}', f'{how}: zeros()/ones() differ', cfg)
+    st, l2 = safe(lambda: jax.tree.unflatten(*reversed(jax.tree.flatten(land))))
+    if st != 'ok':
+        ctx.fail(stream, i, f'landscape-roundtrip-raises:custom:{st}', str(l2)[:150], cfg)
+    else:
+        same(l2, 'flatten/unflatten')
+    # passed through jit as an argument (rebuilt by tree_unflatten inside) and returned
+    st, l3 = safe(lambda: jax.jit(lambda l: l)(land))
+    if st != 'ok':
+        ctx.fail(stream, i, f'landscape-jit-raises:custom:{st}', str(l3)[:150], cfg)
+    else:
+        same(l3, 'jit argument')
+    st, idx = safe(lambda: jax.jit(lambda l, *c: l.pixel2index(*c))(land, *coords))
+    if st != 'ok' or not np.array_equal(np.asarray(idx), want_idx):
+        ctx.fail(stream, i, 'landscape-action:custom:jit', f'pixel2index inside jit (landscape as argument) differs ({st})', cfg)
+    ctx.count('landscape:custom')
+    ctx.case(f'custom:{cfg}', True, sample={'custom_landscape': cfg})
+
+
 def run(ctx: Ctx) -> None:
     q = ctx.tier == 'quick'
     for i in range(120 if q else 2500):
@@ -191,6 +253,9 @@ def run(ctx: Ctx) -> None:
     for i in range(16 if q else 300):
         if ctx.want('inverse', i):
             op_case(ctx, 'inverse', i)
+    for i in range(24 if q else 300):
+        if ctx.want('custom', i):
+            custom_landscape_case(ctx, 'custom', i)
     for i in range(8 if q else 60):
         if ctx.want('landscape', i):
             landscape_case(ctx, 'landscape', i)
